@@ -726,6 +726,74 @@ Lemma w_unit_ok : gc w_unit no_args = Some ([lq "src/cli" "cli"; lq "src/parse" 
                   /\ defect_class w_unit no_args = None.
 Proof. vm_compute. split; reflexivity. Qed.
 
+(* 5. a test behind TWO hidden sub-targets of its own rule (multi-stage test rules):
+      //lib:k_test -> //lib:_k_test#main -> //lib:_k_test#lib -> //lib:k (kept by //app:bin).  Only junk goes. *)
+Definition mt (l : label) (binary test test_only : bool) (deps : list label) (srcs : list str) : target :=
+  T l binary test test_only [] deps deps None srcs [].
+Definition c_bin := mt (lq "app" "bin") true false false [lq "lib" "k"] [].
+Definition c_junk := mt (lq "junk" "junk") false false false [] [s "junk/junk.go"].
+Definition c_hlib := mt (lq "lib" "_k_test#lib") false false true [lq "lib" "k"; lq "testing" "helper"] [].
+Definition c_hmain := mt (lq "lib" "_k_test#main") false false true [lq "lib" "_k_test#lib"] [].
+Definition c_k := mt (lq "lib" "k") false false false [] [s "lib/k.go"].
+Definition c_ktest := mt (lq "lib" "k_test") true true true [lq "lib" "_k_test#main"] [s "lib/k_test.go"].
+Definition c_helper := mt (lq "testing" "helper") false false false [] [s "testing/helper.go"].
+Definition w_chain : graph := G [c_bin; c_junk; c_hlib; c_hmain; c_k; c_ktest; c_helper] [].
+
+Lemma w_chain_gc : gc w_chain no_args = Some ([lq "junk" "junk"], [s "junk/junk.go"]).
+Proof. vm_compute. reflexivity. Qed.
+
+Lemma w_chain_chain : hidden_chain w_chain c_ktest [c_hmain; c_hlib] c_k.
+Proof.
+  cbn [hidden_chain]. split; [exists (lq "lib" "_k_test#main"); split; [left; reflexivity|reflexivity]|].
+  split; [reflexivity|]. split; [exists (lq "lib" "_k_test#lib"); split; [left; reflexivity|reflexivity]|].
+  split; [reflexivity|]. exists (lq "lib" "k"). split; [left; reflexivity|]. split; [reflexivity|].
+  vm_compute. discriminate.
+Qed.
+
+Lemma w_chain_kept0 : Kept0 w_chain no_args (t_label c_k).
+Proof.
+  eapply (K0_dep w_chain no_args (t_label c_bin) c_bin); [|reflexivity|left; reflexivity|discriminate].
+  apply (K0_root w_chain no_args c_bin); [left; reflexivity|]. left. split; [reflexivity|left; reflexivity].
+Qed.
+
+Lemma w_chain_own_sibling t' :
+  In t' (g_targets w_chain) -> t_label t' = t_label c_ktest -> t_label (gc_sibling w_chain t') = t_label c_ktest.
+Proof.
+  intros Hin Hl. rewrite <- Hl. cbn [w_chain g_targets In] in Hin.
+  repeat (destruct Hin as [<-|Hin]; [vm_compute; reflexivity|]). destruct Hin.
+Qed.
+
+(* the hypotheses of chain_test_not_removed are satisfiable, and its conclusion is what the code does *)
+Lemma w_chain_ok :
+  gc w_chain no_args = Some ([lq "junk" "junk"], [s "junk/junk.go"]) /\
+  In c_ktest (g_targets w_chain) /\ t_test c_ktest = true /\ a_include_tests no_args = false /\
+  hidden_chain w_chain c_ktest [c_hmain; c_hlib] c_k /\ Kept0 w_chain no_args (t_label c_k) /\ t_test_only c_k = false /\
+  (forall t', In t' (g_targets w_chain) -> t_label t' = t_label c_ktest -> t_label (gc_sibling w_chain t') = t_label c_ktest).
+Proof.
+  split; [exact w_chain_gc|]. split; [do 5 right; left; reflexivity|]. split; [reflexivity|]. split; [reflexivity|].
+  split; [exact w_chain_chain|]. split; [exact w_chain_kept0|]. split; [reflexivity|exact w_chain_own_sibling].
+Qed.
+
+(* 6. the link that only looks like one: //lib:_other#lib is a hidden sub-target of ANOTHER rule, so
+      //lib:k_test is a test of //lib:_other#lib (which nothing keeps), not of //lib:k: it goes, and - the
+      graph being outside every defect class - the partial theorem says that nothing kept needs it *)
+Definition f_hmain := mt (lq "lib" "_k_test#main") false false true [lq "lib" "_other#lib"] [].
+Definition f_olib := mt (lq "lib" "_other#lib") false false false [lq "lib" "k"] [].
+Definition f_other := mt (lq "lib" "other") false false false [] [s "lib/other.go"].
+Definition w_foreign : graph := G [c_bin; f_hmain; f_olib; c_k; c_ktest; f_other] [].
+
+Lemma w_foreign_gc :
+  gc w_foreign no_args = Some ([lq "lib" "k_test"; lq "lib" "other"], [s "lib/k_test.go"; s "lib/other.go"])
+  /\ defect_class w_foreign no_args = None
+  /\ option_map (map t_label) (public_deps (fuel_of w_foreign) w_foreign c_ktest) = Some [lq "lib" "_other#lib"].
+Proof. vm_compute. repeat split. Qed.
+
+Lemma w_foreign_not_kept : ~ Kept w_foreign no_args (lq "lib" "k_test").
+Proof.
+  destruct w_foreign_gc as [Hgc [Hd _]].
+  destruct (gc_safe_unless_defect _ _ _ _ Hgc Hd) as [Hsafe _]. apply Hsafe. left. reflexivity.
+Qed.
+
 Lemma w_classes :
   defect_class w_order no_args = Some TestNotRevisited /\
   defect_class w_sibling no_args = Some SiblingNotKept /\
